@@ -162,7 +162,7 @@ deriving DecidableEq, Repr
 inductive Outcome
   | ok (s : State)
   | disabled
-  | blocked          -- the read loop would block forever on a full channel
+  | blocked          -- the read loop would block forever on a full channel (no step produces it since the repair)
 deriving DecidableEq, Repr
 
 def step (s : State) : Action → Outcome
@@ -174,7 +174,9 @@ def step (s : State) : Action → Outcome
     match s.pending.find? (·.id == r.id) with
     | none => .ok s                                     -- no such pending call: dropped
     | some p =>
-      if p.slot.isSome then .blocked
+      -- a second response for an id whose first one has not been taken yet: dropped (non-blocking send; before the
+      -- repair the read loop blocked here forever)
+      if p.slot.isSome then .ok s
       else .ok { s with pending := s.pending.map fun q => if q.id == r.id then { q with slot := some r } else q }
   | .cancel t =>
     if s.pending.any (·.thread == t) then
